@@ -42,6 +42,8 @@ PROPVARS = [
     {'mirror_port': PROP_VALUES['mirror_port'], 'mirror_vlan': PROP_VALUES['mirror_vlan'],
      'mirror_direction': 'RX_Only'},
     {'controller_url': '', 'mirror_vlan': ''},          # present but falsy: counts as absent ("by truthiness")
+    {'ero': {'graph': 'external-path-graph-1'}},        # an explicit route given as a reference to a graph built elsewhere
+    {'ero': {'path': []}},                              # ... and as a path without a single hop: both are routes that are set
     'mirror-api',                                       # add_port_mirror_service (PortMirror only, >= 1 interface)
     {'mirror_port': PROP_VALUES['mirror_port'], 'mirror_direction': 'TX_Only', 'controller_url': PROP_VALUES['controller_url']},
 ]
@@ -386,8 +388,13 @@ def _mk_prop(name, val):
         return MirrorDirection[val]
     if name == 'ero':
         from fim.slivers.path_info import ERO, Path
+        if isinstance(val, dict) and 'graph' in val:
+            from fim.slivers.path_info import PathRepresentationType
+            e = ERO(PathRepresentationType.Graph)
+            e.set(val['graph'])
+            return e
         e, p = ERO(), Path()
-        p.set_symmetric(list(val))
+        p.set_symmetric(list(val['path'] if isinstance(val, dict) else val))
         e.set(p)
         return e
     return val
